@@ -1753,3 +1753,30 @@ pub fn f_call(thorough: bool) -> Vec<Case> {
     }
     v
 }
+
+// ------------------------------------------------------------------------------------------------------------
+// invalid-input space (C07): truncations and single-token splices of valid programs
+// ------------------------------------------------------------------------------------------------------------
+pub fn token_mutants(base: &Case) -> Vec<Case> {
+    let mut v = Vec::new();
+    let Ok(l) = lex::lex(&base.text) else { return v };
+    let t = &base.text;
+    let n = l.toks.len();
+    let mk = |s: String| Case { text: s, fam: "F-MUT", dial: base.dial, meta: Meta::default() };
+    for i in 0..n {
+        let (_, a, b) = &l.toks[i];
+        // prefix cut before token i and after token i
+        v.push(mk(t[..*a].to_string()));
+        v.push(mk(t[..*b].to_string()));
+        // deletion
+        v.push(mk(format!("{}{}", &t[..*a], &t[*b..])));
+        // duplication
+        v.push(mk(format!("{}{} {}", &t[..*b], "", &t[*a..])));
+        // swap with the next token
+        if i + 1 < n {
+            let (_, c, d) = &l.toks[i + 1];
+            v.push(mk(format!("{}{}{}{}{}", &t[..*a], &t[*c..*d], &t[*b..*c], &t[*a..*b], &t[*d..])));
+        }
+    }
+    v
+}
